@@ -151,6 +151,19 @@ func H_C07_inject() {
 	}
 	n := len(slotsSeen)
 	rt.Assert(n > 0 && slotsSeen[n-1] == K, "nothing may be evaluated after the sub-expression that raised")
+	// slots are numbered in source order and evaluation follows source order (C08), so the
+	// parts evaluated are exactly the ones written before the failing one: no later part of
+	// the enclosing expression runs, whether after or before the raise in time
+	var slots []int64
+	for _, x := range slotsSeen {
+		if x >= 1 && x <= int64(t.m) {
+			slots = append(slots, x)
+		}
+	}
+	rt.Assert(int64(len(slots)) == K, "exactly the parts written before the failing one are evaluated (no later part of the enclosing expression)")
+	for i, x := range slots {
+		rt.Assert(x == int64(i+1), "exactly the parts written before the failing one are evaluated (no later part of the enclosing expression)")
+	}
 	if t.after != 0 {
 		for _, x := range h.Trace {
 			rt.Assert(x != t.after, "the enclosing call/statement list must not continue after a raise")
